@@ -575,7 +575,7 @@ pub fn run(tier: Tier, _seed: u64, tally: &mut Tally) -> CheckMeta {
         std::process::exit(2);
     }
     let bound = if tier.thorough() { 8 } else { 5 };
-    explore("c15.model", Limits::new(bound).wall(if tier.thorough() { 3000 } else { 120 }), tally, model_case);
+    explore("c15.model", Limits::new(bound).wall(if tier.thorough() { 3000 } else { 600 }), tally, model_case);
     explore("c15.stream", Limits::new(0), tally, stream_case);
     tally.validated = tally.evaluations;
     tally.sample(json!({"model": "Annot", "input": "<< /Subtype /Link /F 4 /ZzUnknown << /Deep [1 (x)] >> >>", "oracle": "p0 -> T -> p1 -> T -> p2: p1 == p2 and every entry of p0 in p1"}));
